@@ -10,6 +10,8 @@ from __future__ import annotations
 from vlib import pool
 from vlib.gen import docs
 
+PLAIN_FAMILY = {"txt", "csv", "tsv", "md", "json"}
+CHARSET_FEATURES = {"cp1252-nonascii", "utf8-nonascii-no-bom", "utf8-bom-nonascii", "utf16-bom-nonascii", "utf16-no-bom"}
 WHICH = {"C02": "c02", "C03": "c03", "C13": "c13", "C14": "c14"}
 
 
@@ -31,7 +33,7 @@ def run_property(run, formats=None, relevant=None):
     which = WHICH[pid]
     formats = [f for f in (formats or sorted(docs.BUILDERS)) if relevant is None or relevant(f)]
     n_clean = run.n(40, 1500)
-    n_feat = run.n(6, 60)
+    n_feat = run.n(12, 80)
     accepted_clean = {f: 0 for f in formats}
     feat_pairs: dict[tuple[str, str], int] = {}
     judged_tokens = 0
@@ -62,10 +64,14 @@ def run_property(run, formats=None, relevant=None):
             feat_pairs[(fmt, feat)] = feat_pairs.get((fmt, feat), 0) + 1
         seen = set()
         for sym, detail in syms:
+            kfmt = fmt
+            if fmt in PLAIN_FAMILY and feat in CHARSET_FEATURES and not twin:
+                # statistical charset detection: one mechanism whatever the carrier extension or the symptom it produces
+                kfmt, sym = "plain", "charset-misdetected"
             if sym in seen:
                 continue
             seen.add(sym)
-            run.violation(f"{pid}:{fmt}:{label}:{sym}", f"{fmt} (seed {case['seed']}, feature {label}): {detail}", rep)
+            run.violation(f"{pid}:{kfmt}:{label}:{sym}", f"{fmt} (seed {case['seed']}, feature {label}): {detail}", rep)
         run.case(f"{fmt}:{label}:{ob.get('n_units')}u:{min(ob.get('n_tables', 0), 4)}t:{min(ob.get('n_images', 0), 4)}i:{','.join(sorted(seen)) or 'ok'}",
                  sample={**rep, "size": ob.get("size"), "tokens": ob.get("n_tokens"), "units": ob.get("n_units"), "tables": ob.get("n_tables"),
                          "images": ob.get("n_images"), "symptoms": sorted(seen)} if run.evaluations % 97 == 0 else None)
